@@ -412,6 +412,12 @@ def check(prog, rep):
         for n in walk_local(f.node):
             if isinstance(n, ast.Attribute) and n.attr == "_degree" and isinstance(n.ctx, ast.Load) and f is not deg:
                 rep.ob("R04.4", f"{f.qual.split(':')[1]}", False, f"reads the raw per-node degree cache ({src(n)}) outside Expression.degree: the value is in sentinel encoding (-1 = non-polynomial, None = unknown), not a degree", loc=f"{f.module.rel}:{n.lineno}", detail="raw-degree-cache-read")
+    for f in prog.functions.values():
+        if f is deg:
+            continue
+        for n in walk_local(f.node):
+            if isinstance(n, ast.Call) and dotted(n.func) in ("getattr", "hasattr") and len(n.args) >= 2 and isinstance(n.args[1], ast.Constant) and n.args[1].value == "_degree":
+                rep.ob("R04.4", f"{f.qual.split(':')[1]}", False, f"reads the raw per-node degree cache ({src(n)[:50]}) outside Expression.degree: the value is in sentinel encoding (-1 = non-polynomial), not a degree; used as one it turns sin(x) + x into degree 1", loc=f"{f.module.rel}:{n.lineno}", detail="raw-degree-cache-read")
     P = prog.cls("Problem")
     lin = P.methods.get("_is_linear_problem")
     if lin is None:
